@@ -488,7 +488,15 @@ impl Model {
         }
         match eval(e, s) {
           Ev::Fail(f) => { let mut v = self.must_err(&format!("f4-source-fails:{}", f), combo0); if f == "undefined-var" { v.err_names = vec!["UndefinedVariable"]; } v }
-          Ev::Unsure => self.either_unknown(name, "unsure-source", combo0),
+          Ev::Unsure => {
+            // a value the model does not predict: if the statement is accepted the name is defined (with
+            // the declared mutability) and holds whatever the system produced; nothing else may change
+            let mut st = s.clone();
+            st.insert(name.clone(), Binding { mutable: *mutable, v: SV::Other("?".into()), origin: format!("{}<-unsure", op.kind()), src: None });
+            let mut v = self.either_unknown(name, "unsure-source", combo0);
+            v.after = After::Unknown(name.clone(), st);
+            v
+          }
           Ev::Val(val) => {
             let combo = format!("{}|{}|{}", combo0, class_of(&val), annot.clone().unwrap_or_default());
             let val2 = match annot { None => Some(val.clone()), Some(a) => annotate(&val, a) };
